@@ -384,6 +384,8 @@ def run_check(chk, tier, replay=None):
         bins[prof] = b
 
     # 3. cases
+    chk.ctx = ctx
+    chk.impl_query = lambda ls: run_impl(bins[chk.profiles[0]], ls, timeout=chk.impl_timeout)
     if replay:
         obj = json.load(open(replay))
         cases = [Case(l) for l in obj.get("lines", [obj.get("line")]) if l]
